@@ -45,7 +45,7 @@ static __thread int ev_i = 0;
 static __thread const char *thr_tag = "";
 
 /* ---------------------------------------------------------------- events */
-static __thread char evbuf[1 << 18];
+static __thread char evbuf[1 << 22];
 static __thread size_t evlen;
 static void ev_raw(const char *s) {
     size_t l = strlen(s);
